@@ -339,10 +339,11 @@ def gen_doc(rng, width, brace_level=2, blocks=True, max_entries=3):
         e['regs'] = gen_regs(rng, width)
         groups = []
         for gi in range(rng.randint(1, 5)):
-            n = rng.choice([1, 1, 1, 2, 2, 3, 4, 6, 9])
+            n = rng.choice([1, 1, 1, 1, 2, 2, 2, 3, 3, 4, 5, 6, 7, 8, 9, 10, 12])
             kind, sub, instrs, addr = gen_group_instrs(rng, addr, n, rng.random() < 0.3)
             r = rng.random()
             cpar = None
+            shape = 'none'
             if r < 0.12:
                 comment = ''
             else:
@@ -364,6 +365,8 @@ def gen_doc(rng, width, brace_level=2, blocks=True, max_entries=3):
                 first = groups[-1]
                 if comment and cpar:
                     first['cpar'] = cpar
+                    shape = 'list/table markup'
+                first['braces'] = shape
             if rng.random() < 0.4:
                 first['mid'] = [gen_par(rng, width, blocks, exact=width - 2) for _ in range(rng.choice([1, 1, 2]))]
         e['groups'] = groups
@@ -560,3 +563,29 @@ def to_skool(doc, rng):
         if e['end']:
             out += [('; ' + l).rstrip() for l in _pars_lines(rng, e['end'], src_width)]
     return '\n'.join(out) + '\n'
+
+def features(doc):
+    """Names of the generator features a document exercises (for the evidence histograms)."""
+    out = []
+    def par(where, p):
+        for part in p:
+            if part[0] == 'l':
+                out.append('%s:#LIST%s' % (where, part[1]))
+            elif part[0] == 'g':
+                out.append('%s:#TABLE%s%s' % (where, part[1], ':w' if any(part[2]) else ''))
+    for e in doc['entries']:
+        out.append('description paragraphs:%d' % len(e['desc']))
+        for p in e['desc']:
+            par('description', p)
+        for prefix, delims, name, text in e['regs']:
+            out.append('register:%s%s%s' % ('prefix ' if prefix else '', 'delimited ' if delims[0] else '', 'no description' if not text else ''))
+        for g in e['groups']:
+            for p in g['mid']:
+                par('mid-block', p)
+            if g.get('cpar'):
+                par('instruction comment', g['cpar'])
+            if g.get('braces', 'none') != 'none':
+                out.append('braces:%s%s' % (g['braces'], ' (group)' if len(g['instrs']) > 1 else ''))
+        for p in e['end']:
+            par('end comment', p)
+    return out
